@@ -1,5 +1,5 @@
-(* Refl/IsoNever.v -- C06, as-if-never: sessions arriving and leaving keep the simulation relation of Refl/IsoSim.v, the
-   events of s itself leave the erased side alone, and when s has left the two states agree. *)
+(* Refl/IsoNever.v -- C06, as-if-never, the server level: sessions arriving and leaving keep the simulation relation of
+   Refl/IsoSim.v, and the arrival and departure of s itself leave the erased side alone.  (Dispatcher level: Refl/IsoAsIf.v.) *)
 From Coq Require Import List NArith ZArith Bool Arith Lia.
 From Muscle Require Import Gen.Consts Refl.Base Refl.BaseProofs Refl.Tree Refl.TreeProofs Refl.Matcher Refl.MatcherProofs
      Refl.Traverse Refl.TraverseSpec Refl.Session Refl.Server Refl.ServerProofs Refl.IsoModel Refl.IsoBase Refl.IsoTrav Refl.IsoFrame
@@ -333,380 +333,6 @@ Proof.
     transitivity (map sparams (others s (others s (sv_sessions F)))).
     + f_equal. unfold others. symmetry. apply filter_filter_implied. auto.
     + symmetry. apply (others_params_eq s). exact Hp.
-Qed.
-
-(* ------------------------------------------------------------------ the dispatcher level *)
-
-(* nobody holds PR_PRIVILEGE_KICK *)
-Definition nokick (xs : xserver) : Prop := forall k, N.testbit (priv_get (xs_priv xs) k) c_PR_PRIVILEGE_KICK = false.
-
-Definition xrel (XF XE : xserver) : Prop :=
-  rel s (xs_sv XF) (xs_sv XE) /\ priv_remove (xs_priv XF) s = xs_priv XE /\ xs_ducks XF = [] /\ xs_ducks XE = [] /\ nokick XF.
-
-Lemma priv_get_remove : forall l a k, priv_get (priv_remove l a) k = if N.eqb a k then 0%N else priv_get l k.
-Proof.
-  unfold priv_remove. induction l as [|[k0 b] r IH]; intros a k; cbn [filter priv_get fst]; [now destruct (N.eqb a k)|].
-  destruct (N.eqb k0 a) eqn:E; cbn [negb priv_get].
-  - apply N.eqb_eq in E. subst k0. rewrite IH. destruct (N.eqb a k); reflexivity.
-  - rewrite IH. destruct (N.eqb k0 k) eqn:E2; [|reflexivity].
-    apply N.eqb_eq in E2. subst k0. rewrite N.eqb_sym in E. now rewrite E.
-Qed.
-
-Lemma nokick_remove : forall xs a, nokick xs -> nokick (with_priv xs (priv_remove (xs_priv xs) a)).
-Proof. intros xs a H k. cbn [xs_priv with_priv]. rewrite priv_get_remove. destruct (N.eqb a k); [apply N.bits_0|apply H]. Qed.
-
-Lemma nokick_erased : forall XF XE, nokick XF -> priv_remove (xs_priv XF) s = xs_priv XE -> nokick XE.
-Proof. intros XF XE H Hp k. rewrite <- Hp, priv_get_remove. destruct (N.eqb s k); [apply N.bits_0|apply H]. Qed.
-
-Lemma priv_remove_comm : forall l a b, priv_remove (priv_remove l a) b = priv_remove (priv_remove l b) a.
-Proof. intros. unfold priv_remove. apply filter_comm. Qed.
-
-Lemma dispatch_nokick : forall xs ss what keys sess, nokick xs ->
-  xs_sv (dispatch fx xs ss what keys sess) = xs_sv xs /\ xs_priv (dispatch fx xs ss what keys sess) = xs_priv xs /\
-  xs_ducks (dispatch fx xs ss what keys sess) = xs_ducks xs.
-Proof.
-  intros xs ss what keys sess Hk. unfold dispatch, bounce, log_to, with_ducks, has_priv. rewrite (Hk (s_id ss)).
-  repeat (match goal with |- context [if ?b then _ else _] => destruct b end); try (now repeat split); destruct keys; now repeat split.
-Qed.
-
-Lemma get_session_some_in : forall sv k x, get_session sv k = Some x -> In x (sv_sessions sv) /\ s_id x = k.
-Proof. intros sv k x H. now apply find_session_some. Qed.
-
-Theorem xhandle_sim : forall c nest XF XE t B, small (B + xcmd_budget c) -> inv B (xs_sv XF) -> inv B (xs_sv XE) ->
-  xrel XF XE -> t <> s -> xrel (xhandle fx nest XF t c) (xhandle fx nest XE t c).
-Proof.
-  induction c as [b|f i|q k|w k|b| |w k se|l IHl] using xcmd_ind'; intros nest XF XE t B HB IF IE X Ht;
-    pose proof X as [R [P [D1 [D2 K]]]];
-    pose proof (rel_get_session s _ _ t (proj2 R) Ht) as Hg;
-    (destruct (get_session (xs_sv XF) t) as [a|] eqn:Ha; destruct (get_session (xs_sv XE) t) as [a'|] eqn:Ha'; try contradiction;
-     [|destruct nest; cbn [xhandle]; rewrite Ha, Ha'; exact X]).
-  - destruct nest; cbn [xhandle]; rewrite Ha, Ha'; (split; [|now repeat split]); cbn [xs_sv with_sv]; now apply (handle_sim fx guard_on s b _ _ _ t B).
-  - cbn [xcmd_budget] in HB. destruct nest; cbn [xhandle]; rewrite Ha, Ha'; (split; [|now repeat split]); cbn [xs_sv with_sv];
-      (apply (handle_sim fx guard_on s _ _ _ _ t B); [exact HB|exact IF|exact IE|exact R|exact Ht]).
-  - cbn [xcmd_budget] in HB. destruct nest; cbn [xhandle]; rewrite Ha, Ha'; (split; [|now repeat split]); cbn [xs_sv with_sv];
-      (apply (handle_sim fx guard_on s _ _ _ _ t B); [exact HB|exact IF|exact IE|exact R|exact Ht]).
-  - pose proof (nokick_erased XF XE K P) as K'.
-    destruct (dispatch_nokick XF a w k None K) as [A1 [A2 A3]]. destruct (dispatch_nokick XE a' w k None K') as [B1 [B2 B3]].
-    destruct nest; cbn [xhandle]; rewrite Ha, Ha'; unfold xrel, nokick; rewrite A1, A2, A3, B1, B2, B3; exact X.
-  - destruct nest; cbn [xhandle]; rewrite Ha, Ha'; exact X.
-  - destruct nest; cbn [xhandle]; rewrite Ha, Ha'; (split; [exact R|]); cbn [xs_priv xs_ducks with_priv];
-      (split; [rewrite priv_remove_comm; now rewrite P|]); (split; [exact D1|]); (split; [exact D2|]); apply (nokick_remove XF t K).
-  - pose proof (nokick_erased XF XE K P) as K'.
-    destruct (dispatch_nokick XF a w k se K) as [A1 [A2 A3]]. destruct (dispatch_nokick XE a' w k se K') as [B1 [B2 B3]].
-    destruct nest; cbn [xhandle]; rewrite Ha, Ha'; unfold xrel, nokick; rewrite A1, A2, A3, B1, B2, B3; exact X.
-  - (* BATCH *)
-    rewrite (xcmd_budget_batch l) in HB.
-    assert (G : forall nest' XF' XE' B', small (B' + xsum l) -> inv B' (xs_sv XF') -> inv B' (xs_sv XE') -> xrel XF' XE' ->
-              xrel ((fix go (l0 : list xcmd) (xs0 : xserver) : xserver :=
-                       match l0 with
-                       | [] => xs0
-                       | c' :: r => go r (let xs1 := xhandle fx (S nest') xs0 t c' in with_sv xs1 (push_all (xs_sv xs1)))
-                       end) l XF')
-                   ((fix go (l0 : list xcmd) (xs0 : xserver) : xserver :=
-                       match l0 with
-                       | [] => xs0
-                       | c' :: r => go r (let xs1 := xhandle fx (S nest') xs0 t c' in with_sv xs1 (push_all (xs_sv xs1)))
-                       end) l XE')).
-    { intros nest'. clear HB IF IE X R P D1 D2 K Hg Ha Ha'. induction IHl as [|c l Hc _ IHl']; intros XF' XE' B' HB' IF' IE' X'; [exact X'|].
-      cbn [xsum] in HB'.
-      assert (HBc : small (B' + xcmd_budget c)) by (eapply small_le; [|exact HB']; lia).
-      pose proof (Hc (S nest') XF' XE' t B' HBc IF' IE' X' Ht) as [R1 [P1 [E1 [E2 K1]]]].
-      apply (IHl' _ _ (B' + xcmd_budget c)).
-      - now rewrite <- Nat.add_assoc.
-      - cbn [xs_sv with_sv]. eapply inv_same_core; [apply push_all_core|]. now apply (xhandle_inv fx guard_on).
-      - cbn [xs_sv with_sv]. eapply inv_same_core; [apply push_all_core|]. now apply (xhandle_inv fx guard_on).
-      - split; [|now repeat split]. cbn [xs_sv with_sv]. eapply rel_same_state; [apply push_all_same|apply push_all_same|exact R1]. }
-    destruct nest as [|nest]; cbn [xhandle]; rewrite Ha, Ha'; (destruct (Nat.ltb _ _); [now apply (G _ XF XE B)|exact X]).
-Qed.
-
-(* without PR_PRIVILEGE_KICK anywhere, no command marks anybody for removal *)
-Lemma xhandle_nokick : forall c nest xs k, nokick xs ->
-  xs_ducks (xhandle fx nest xs k c) = xs_ducks xs /\ nokick (xhandle fx nest xs k c).
-Proof.
-  induction c as [b|f i|q ky|w ky|b| |w ky se|l IHl] using xcmd_ind'; intros nest xs k K;
-    (destruct (get_session (xs_sv xs) k) as [a|] eqn:Ha; [|destruct nest; cbn [xhandle]; rewrite Ha; now split]).
-  - destruct nest; cbn [xhandle]; rewrite Ha; now split.
-  - destruct nest; cbn [xhandle]; rewrite Ha; now split.
-  - destruct nest; cbn [xhandle]; rewrite Ha; now split.
-  - destruct (dispatch_nokick xs a w ky None K) as [A1 [A2 A3]]. destruct nest; cbn [xhandle]; rewrite Ha; (split; [exact A3|]); unfold nokick; now rewrite A2.
-  - destruct nest; cbn [xhandle]; rewrite Ha; now split.
-  - destruct nest; cbn [xhandle]; rewrite Ha; (split; [reflexivity|apply (nokick_remove xs k K)]).
-  - destruct (dispatch_nokick xs a w ky se K) as [A1 [A2 A3]]. destruct nest; cbn [xhandle]; rewrite Ha; (split; [exact A3|]); unfold nokick; now rewrite A2.
-  - assert (G : forall nest' xs', nokick xs' ->
-              xs_ducks ((fix go (l0 : list xcmd) (xs0 : xserver) : xserver :=
-                           match l0 with
-                           | [] => xs0
-                           | c' :: r => go r (let xs1 := xhandle fx (S nest') xs0 k c' in with_sv xs1 (push_all (xs_sv xs1)))
-                           end) l xs') = xs_ducks xs' /\
-              nokick ((fix go (l0 : list xcmd) (xs0 : xserver) : xserver :=
-                           match l0 with
-                           | [] => xs0
-                           | c' :: r => go r (let xs1 := xhandle fx (S nest') xs0 k c' in with_sv xs1 (push_all (xs_sv xs1)))
-                           end) l xs')).
-    { intros nest'. clear K Ha. induction IHl as [|c l Hc _ IHl']; intros xs' K'; [now split|].
-      destruct (Hc (S nest') xs' k K') as [D1 K1].
-      destruct (IHl' (with_sv (xhandle fx (S nest') xs' k c) (push_all (xs_sv (xhandle fx (S nest') xs' k c))))) as [D2 K2]; [exact K1|].
-      split; [|exact K2]. etransitivity; [exact D2|exact D1]. }
-    destruct nest as [|nest]; cbn [xhandle]; rewrite Ha; (destruct (Nat.ltb _ _); [now apply G|now split]).
-Qed.
-
-(* ------------------------------------------------------------------ one turn *)
-
-Definition ev_of (ev : xevent) : sid := match ev with XAttach k _ _ _ => k | XDetach k => k | XCmd k _ => k end.
-
-(* no arriving session is granted PR_PRIVILEGE_KICK *)
-Definition ev_nokick (ev : xevent) : Prop :=
-  match ev with XAttach _ _ _ bits => N.testbit bits c_PR_PRIVILEGE_KICK = false | _ => True end.
-
-Lemma priv_get_app : forall l k b j, priv_get (l ++ [(k, b)]) j = if N.testbit 0 0 then 0%N else
-  match find (fun kb => N.eqb (fst kb) j) l with Some kb => snd kb | None => if N.eqb k j then b else 0%N end.
-Proof.
-  induction l as [|[k0 b0] r IH]; intros k b j; cbn [app priv_get find fst snd N.testbit]; [reflexivity|].
-  destruct (N.eqb k0 j); [reflexivity|]. rewrite IH. reflexivity.
-Qed.
-
-Lemma nokick_app : forall xs k b, nokick xs -> N.testbit b c_PR_PRIVILEGE_KICK = false ->
-  forall j, N.testbit (priv_get (xs_priv xs ++ [(k, b)]) j) c_PR_PRIVILEGE_KICK = false.
-Proof.
-  intros xs k b K Hb j. specialize (K j). revert K. generalize (xs_priv xs). induction l as [|[k0 b0] r IH]; intros K; cbn [app priv_get] in *.
-  - destruct (N.eqb k j); [exact Hb|apply N.bits_0].
-  - destruct (N.eqb k0 j); [exact K|now apply IH].
-Qed.
-
-Lemma priv_remove_app_other : forall l k b, k <> s -> priv_remove (l ++ [(k, b)]) s = priv_remove l s ++ [(k, b)].
-Proof.
-  intros l k b Hk. unfold priv_remove. rewrite filter_app. cbn [filter fst].
-  assert (N.eqb k s = false) as -> by now apply N.eqb_neq. reflexivity.
-Qed.
-
-Lemma priv_remove_app_self : forall l b, priv_remove (l ++ [(s, b)]) s = priv_remove l s.
-Proof. intros l b. unfold priv_remove. rewrite filter_app. cbn [filter fst]. rewrite N.eqb_refl. cbn [negb]. apply app_nil_r. Qed.
-
-Lemma clear_ducks_nil' : forall xs, xs_ducks xs = [] -> clear_ducks fx xs = xs.
-Proof. intros xs H. unfold clear_ducks. now rewrite H. Qed.
-
-(* a turn for another session, on both sides *)
-Lemma xstep_other : forall ev XF XE B, small (B + xev_budget ev) -> inv B (xs_sv XF) -> inv B (xs_sv XE) ->
-  xrel XF XE -> ev_of ev <> s -> xwf_event XF ev -> ev_nokick ev ->
-  xrel (xstep fx XF ev) (xstep fx XE ev).
-Proof.
-  intros [t host nm bits|t|t c] XF XE B HB IF IE X Ht Hwf Hnk; cbn [ev_of] in Ht; pose proof X as [R [P [D1 [D2 K]]]];
-    pose proof (rel_get_session s _ _ t (proj2 R) Ht) as Hg.
-  - (* arrival *)
-    cbn [xstep]. destruct (get_session (xs_sv XF) t) as [a|] eqn:Ha; destruct (get_session (xs_sv XE) t) as [a'|] eqn:Ha'; try contradiction; [exact X|].
-    unfold xattach. split; [|split; [|split; [exact D1|split; [exact D2|]]]]; cbn [xs_sv xs_priv xs_ducks].
-    + apply attach_sim; [exact R|exact Ht|]. cbn [xwf_event] in Hwf. unfold sdir.
-      destruct (get_session (xs_sv XF) s) as [ss|] eqn:Hss; [|reflexivity]. cbn [option_map hidden].
-      destruct (is_prefix (session_dir ss) [host; nm]) eqn:E0; [|reflexivity]. exfalso.
-      apply (Hwf ss); [apply find_session_some in Hss; tauto|]. apply is_prefix_same_length; [exact E0|reflexivity].
-    + destruct (N.eqb bits 0); [exact P|]. rewrite priv_remove_app_other by exact Ht. now rewrite P.
-    + cbn [ev_nokick] in Hnk. destruct (N.eqb bits 0); [exact K|]. intros j. cbn [xs_priv]. now apply nokick_app.
-  - (* departure *)
-    cbn [xstep]. unfold xdetach. split; [|split; [|split; [|split]]]; cbn [xs_sv xs_priv xs_ducks].
-    + now apply (detach_sim B).
-    + rewrite priv_remove_comm. now rewrite P.
-    + now rewrite D1.
-    + now rewrite D2.
-    + intros j. cbn [xs_priv]. rewrite priv_get_remove. destruct (N.eqb t j); [apply N.bits_0|apply K].
-  - (* a command *)
-    cbn [xstep xev_budget] in *.
-    destruct (get_session (xs_sv XF) t) as [a|] eqn:Ha; destruct (get_session (xs_sv XE) t) as [a'|] eqn:Ha'; try contradiction; [|exact X].
-    cbv zeta. pose proof (xhandle_sim c 0 XF XE t B HB IF IE X Ht) as [R1 [P1 [E1 [E2 K1]]]].
-    rewrite !clear_ducks_nil' by (cbn [xs_ducks with_sv]; assumption).
-    split; [|now repeat split]. cbn [xs_sv with_sv]. eapply rel_same_state; [apply push_all_same|apply push_all_same|exact R1].
-Qed.
-
-(* a turn for s itself: the erased side stands still *)
-Lemma xstep_self : forall ev XF XE B, inv B (xs_sv XF) -> xrel XF XE -> ev_of ev = s -> xwf_event XF ev -> ev_nokick ev ->
-  xrel (xstep fx XF ev) XE.
-Proof.
-  intros [t host nm bits|t|t c] XF XE B IF X Ht Hwf Hnk; cbn [ev_of] in Ht; subst t; pose proof X as [R [P [D1 [D2 K]]]].
-  - cbn [xstep]. destruct (get_session (xs_sv XF) s) as [a|] eqn:Ha; [exact X|].
-    unfold xattach. split; [|split; [|split; [exact D1|split; [exact D2|]]]]; cbn [xs_sv xs_priv xs_ducks].
-    + now apply (attach_self B).
-    + destruct (N.eqb bits 0); [exact P|]. now rewrite priv_remove_app_self.
-    + cbn [ev_nokick] in Hnk. destruct (N.eqb bits 0); [exact K|]. intros j. cbn [xs_priv]. now apply nokick_app.
-  - cbn [xstep]. unfold xdetach. split; [|split; [|split; [|split]]]; cbn [xs_sv xs_priv xs_ducks].
-    + destruct (get_session (xs_sv XF) s) as [a|] eqn:Ha; [now apply (detach_self B _ _ a)|]. unfold detach. now rewrite Ha.
-    + unfold priv_remove. rewrite filter_filter_implied by auto. exact P.
-    + now rewrite D1.
-    + exact D2.
-    + intros j. cbn [xs_priv]. rewrite priv_get_remove. destruct (N.eqb s j); [apply N.bits_0|apply K].
-  - cbn [xstep]. destruct (get_session (xs_sv XF) s) as [a|] eqn:Ha; [|exact X]. cbv zeta.
-    pose proof (xhandle_xframe fx c 0 XF s a Ha) as [Fr [Pr _]].
-    destruct (xhandle_nokick c 0 XF s K) as [Dk Kk].
-    rewrite clear_ducks_nil' by (cbn [xs_ducks with_sv]; congruence).
-    split; [|split; [|split; [|split]]]; cbn [xs_sv xs_priv xs_ducks with_sv].
-    + apply (rel_frame (xs_sv XF) _ _ a); [exact R|exact Ha|]. eapply frame_trans; [exact Fr|apply same_state_frame, push_all_same].
-    + now rewrite Pr.
-    + congruence.
-    + exact D2.
-    + exact Kk.
-Qed.
-
-(* ------------------------------------------------------------------ whole histories *)
-
-(* the history with everything s did (arriving, commands, leaving) taken out *)
-Definition erase (evs : list xevent) : list xevent := filter (fun ev => negb (N.eqb (ev_of ev) s)) evs.
-
-Lemma erased_wf_event : forall XF XE ev, rel_sess s (xs_sv XF) (xs_sv XE) -> xwf_event XF ev -> xwf_event XE ev.
-Proof.
-  intros XF XE [t host nm bits|t|t c] R Hwf; cbn [xwf_event] in *; [|exact I|exact I].
-  intros x Hx Hd. unfold rel_sess, all_params in R.
-  assert (Hin : In (sparams x) (map sparams (others s (sv_sessions (xs_sv XF))))) by (rewrite <- R; now apply in_map).
-  apply in_map_iff in Hin as [y [Hy1 Hy2]]. unfold others in Hy2. apply filter_In in Hy2 as [Hy2 _].
-  apply (Hwf y Hy2). apply sparams_parts in Hy1 as [_ [H2 [H3 _]]]. unfold session_dir in *. congruence.
-Qed.
-
-Theorem sim_run : forall evs XF XE B, small (B + xrun_budget evs) -> inv B (xs_sv XF) -> inv B (xs_sv XE) -> xrel XF XE ->
-  hosts_ok (xs_sv XF) -> hosts_ok (xs_sv XE) ->
-  xwf_run fx XF evs -> Forall ev_nokick evs ->
-  xrel (xrun fx evs XF) (xrun fx (erase evs) XE) /\
-  (inv (B + xrun_budget evs) (xs_sv (xrun fx evs XF)) /\ inv (B + xrun_budget evs) (xs_sv (xrun fx (erase evs) XE))) /\
-  (hosts_ok (xs_sv (xrun fx evs XF)) /\ hosts_ok (xs_sv (xrun fx (erase evs) XE))).
-Proof.
-  induction evs as [|ev evs IH]; intros XF XE B HB IF IE X HF HE Hwf Hnk; cbn [xrun fold_left erase filter xrun_budget] in *.
-  - rewrite Nat.add_0_r. split; [exact X|split; split; assumption].
-  - destruct Hwf as [Hw1 Hw2]. inversion Hnk as [|? ? Hn1 Hn2]; subst.
-    assert (HBe : small (B + xev_budget ev)) by (eapply small_le; [|exact HB]; lia).
-    assert (IF' : inv (B + xev_budget ev) (xs_sv (xstep fx XF ev))) by now apply (xstep_inv fx guard_on).
-    assert (HF' : hosts_ok (xs_sv (xstep fx XF ev))) by now apply (hosts_ok_xstep fx guard_on ev XF B).
-    rewrite Nat.add_assoc.
-    destruct (N.eqb (ev_of ev) s) eqn:Es; cbn [negb].
-    + apply N.eqb_eq in Es.
-      apply (IH _ _ (B + xev_budget ev)); [now rewrite <- Nat.add_assoc|exact IF'|apply (inv_weaken B); [lia|exact IE]| |exact HF'|exact HE|exact Hw2|exact Hn2].
-      now apply (xstep_self ev XF XE B).
-    + apply N.eqb_neq in Es. cbn [fold_left].
-      assert (Hw1E : xwf_event XE ev) by (eapply erased_wf_event; [exact (proj2 (proj1 X))|exact Hw1]).
-      apply (IH _ _ (B + xev_budget ev)); [now rewrite <- Nat.add_assoc|exact IF'| | |exact HF'| |exact Hw2|exact Hn2].
-      * now apply (xstep_inv fx guard_on).
-      * now apply (xstep_other ev XF XE B).
-      * now apply (hosts_ok_xstep fx guard_on ev XE B).
-Qed.
-
-Lemma xrel_empty : xrel empty_xserver empty_xserver.
-Proof.
-  split; [split; [reflexivity|reflexivity]|]. split; [reflexivity|]. split; [reflexivity|]. split; [reflexivity|].
-  intros k. apply N.bits_0.
-Qed.
-
-Lemma xwf_run_app : forall evs xs ev, xwf_run fx xs evs -> xwf_event (xrun fx evs xs) ev -> xwf_run fx xs (evs ++ [ev]).
-Proof.
-  induction evs as [|e evs IH]; intros xs ev H1 H2; cbn [app xwf_run xrun fold_left] in *; [now split|].
-  destruct H1 as [Ha Hb]. split; [exact Ha|]. now apply IH.
-Qed.
-
-Lemma xrun_budget_app : forall a b, xrun_budget (a ++ b) = xrun_budget a + xrun_budget b.
-Proof. induction a as [|e a IH]; intros b; cbn [app xrun_budget]; [reflexivity|]. rewrite IH. lia. Qed.
-
-Lemma xrun_app : forall a b xs, xrun fx (a ++ b) xs = xrun fx b (xrun fx a xs).
-Proof. intros. unfold xrun. apply fold_left_app. Qed.
-
-Lemma erase_app : forall a b, erase (a ++ b) = erase a ++ erase b.
-Proof. intros. unfold erase. apply filter_app. Qed.
-
-Lemma others_none : forall l, find_session l s = None -> others s l = l.
-Proof.
-  induction l as [|x l IH]; intros H; [reflexivity|]. cbn in *. destruct (N.eqb (s_id x) s); [discriminate|]. cbn. f_equal. now apply IH.
-Qed.
-
-(* AS IF NEVER.  Take any history evs in which nobody is granted PR_PRIVILEGE_KICK (sessions arrive under fresh (host, id)
-   pairs; fewer than 2^31-1 subscription strings in total), let s's connection end after it, and compare with the history in
-   which s never arrived, sent or left:
-     * below host level the two trees are the same list of nodes: same paths, same payloads, same order (= child iteration
-       order), same subscriber tables;
-     * the sessions are the same, in the same order, with the same identity, subscriptions and update limits;
-     * the privilege tables are the same and nobody is marked for removal.
-   (Host nodes: see [as_if_never_hosts].)  What the others were sent in the meantime is of course not compared. *)
-Theorem as_if_never : forall evs,
-  small (xrun_budget evs) -> xwf_run fx empty_xserver evs -> Forall ev_nokick evs ->
-  let XF := xstep fx (xrun fx evs empty_xserver) (XDetach s) in
-  let XE := xrun fx (erase evs) empty_xserver in
-  body (sv_tree (xs_sv XF)) = body (sv_tree (xs_sv XE)) /\
-  all_params (xs_sv XF) = all_params (xs_sv XE) /\
-  xs_priv XF = xs_priv XE /\ xs_ducks XF = [] /\ xs_ducks XE = [].
-Proof.
-  intros evs HB Hwf Hnk XF XE.
-  assert (HB' : small (0 + xrun_budget (evs ++ [XDetach s]))) by (rewrite xrun_budget_app; cbn; now rewrite !Nat.add_0_r).
-  assert (H0 : hosts_ok (xs_sv empty_xserver)) by (intros n []).
-  destruct (sim_run (evs ++ [XDetach s]) empty_xserver empty_xserver 0 HB' empty_inv empty_inv xrel_empty H0 H0) as [X [[IF IE] _]].
-  - apply xwf_run_app; [exact Hwf|exact I].
-  - apply Forall_app. split; [exact Hnk|constructor; [exact I|constructor]].
-  - rewrite xrun_app in X, IF. rewrite erase_app in X. cbn [erase filter ev_of] in X. rewrite N.eqb_refl in X. cbn [negb] in X. rewrite app_nil_r in X.
-    cbn [xrun fold_left] in X, IF. fold XF in X, IF. fold XE in X.
-    destruct X as [[R1 R2] [P [D1 [D2 _]]]].
-    assert (Hnone : get_session (xs_sv XF) s = None).
-    { unfold XF. cbn [xstep xs_sv xdetach]. unfold detach. destruct (get_session (xs_sv (xrun fx evs empty_xserver)) s) eqn:E0; [|exact E0].
-      unfold get_session. cbn [sv_sessions]. apply find_session_filter_self. }
-    assert (Hstrip : forall n, In n (sv_tree (xs_sv XF)) -> strip s n = n).
-    { intros n Hn. destruct (inv_marks _ _ _ IF n Hn) as [Hok Hget].
-      unfold strip. destruct n as [p d tb]. cbn [n_path n_data n_subs] in *. f_equal. apply tbl_without_absent.
-      intros Hin. pose proof (tbl_in_get_pos _ _ Hok Hin) as Hpos. rewrite Hget in Hpos. unfold count_for in Hpos. rewrite Hnone in Hpos. lia. }
-    split; [|split; [|split; [|split]]].
-    + unfold sdir in R1. rewrite Hnone in R1. cbn [option_map] in R1. unfold rel_tree in R1. rewrite R1. unfold body.
-      assert (Hf : filter (vis None) (sv_tree (xs_sv XF)) = filter nonhost (sv_tree (xs_sv XF))).
-      { apply filter_ext. intros n. unfold vis, hidden. apply andb_true_r. }
-      rewrite Hf. rewrite <- (map_id (filter nonhost (sv_tree (xs_sv XF)))) at 1. apply map_ext_in.
-      intros n Hn. apply filter_In in Hn as [Hn _]. symmetry. now apply Hstrip.
-    + unfold rel_sess in R2. rewrite R2. unfold all_params. f_equal. symmetry. now apply others_none.
-    + rewrite <- P. unfold XF. cbn [xstep xs_priv xdetach]. unfold priv_remove. now rewrite filter_filter_implied by auto.
-    + exact D1.
-    + exact D2.
-Qed.
-
-(* two states with the same sessions (identity, subscriptions) that both satisfy the invariants agree on their host nodes *)
-Lemma hosts_agree : forall B A Bv h, inv B A -> inv B Bv -> hosts_ok A -> hosts_ok Bv -> all_params A = all_params Bv ->
-  match find_node (sv_tree A) [h], find_node (sv_tree Bv) [h] with
-  | Some a, Some b => n_data a = n_data b /\ forall k, tbl_get (n_subs a) k = tbl_get (n_subs b) k
-  | None, None => True
-  | _, _ => False
-  end.
-Proof.
-  intros B A Bv h IA IB HA HB Hp.
-  assert (Hhost : forall (X Y : server) n, inv B Y -> hosts_ok X -> all_params X = all_params Y ->
-                  find_node (sv_tree X) [h] = Some n -> has_node (sv_tree Y) [h] = true).
-  { intros X Y n IY HX Hxy Hf. apply find_node_some in Hf as [Hin Hpn].
-    destruct (HX n Hin) as [_ [x [Hx1 Hx2]]]; [now rewrite Hpn|].
-    unfold all_params in Hxy. assert (Hi : In (sparams x) (map sparams (sv_sessions Y))) by (rewrite <- Hxy; now apply in_map).
-    apply in_map_iff in Hi as [y [Hy1 Hy2]]. apply sparams_parts in Hy1 as [_ [Hh _]].
-    pose proof (host_of_session B Y y IY Hy2) as Hn. rewrite Hpn in Hx2. injection Hx2 as Hx2. now rewrite Hh, Hx2 in Hn. }
-  destruct (find_node (sv_tree A) [h]) as [a|] eqn:Ea; destruct (find_node (sv_tree Bv) [h]) as [b|] eqn:Eb.
-  - apply find_node_some in Ea as [Ia Pa]. apply find_node_some in Eb as [Ib Pb].
-    destruct (HA a Ia) as [Da _]; [now rewrite Pa|]. destruct (HB b Ib) as [Db _]; [now rewrite Pb|].
-    split; [congruence|]. intros k.
-    destruct (inv_marks _ _ _ IA a Ia) as [_ Ga]. destruct (inv_marks _ _ _ IB b Ib) as [_ Gb]. rewrite Ga, Gb, Pa, Pb.
-    unfold count_for, get_session. pose proof (find_session_params (sv_sessions Bv) (sv_sessions A) k Hp) as Hc.
-    destruct (find_session (sv_sessions Bv) k) as [y|], (find_session (sv_sessions A) k) as [x|]; try contradiction; [|reflexivity].
-    apply sparams_parts in Hc as [_ [_ [_ [Hs _]]]]. now rewrite Hs.
-  - pose proof (Hhost A Bv a IB HA Hp Ea) as Hn. unfold has_node in Hn. rewrite Eb in Hn. discriminate.
-  - pose proof (Hhost Bv A b IA HB (eq_sym Hp) Eb) as Hn. unfold has_node in Hn. rewrite Ea in Hn. discriminate.
-  - exact I.
-Qed.
-
-(* AS IF NEVER, host level: the two states have the same host nodes, with the same (empty) payload and the same subscriber
-   counts for every session.  (A host node's position among its siblings is the one thing that may differ: the run without s
-   may have created it later.) *)
-Theorem as_if_never_hosts : forall evs,
-  small (xrun_budget evs) -> xwf_run fx empty_xserver evs -> Forall ev_nokick evs ->
-  let XF := xstep fx (xrun fx evs empty_xserver) (XDetach s) in
-  let XE := xrun fx (erase evs) empty_xserver in
-  forall h,
-  match find_node (sv_tree (xs_sv XF)) [h], find_node (sv_tree (xs_sv XE)) [h] with
-  | Some a, Some b => n_data a = n_data b /\ forall k, tbl_get (n_subs a) k = tbl_get (n_subs b) k
-  | None, None => True
-  | _, _ => False
-  end.
-Proof.
-  intros evs HB Hwf Hnk XF XE h.
-  destruct (as_if_never evs HB Hwf Hnk) as [_ [Hp _]]. fold XF in Hp. fold XE in Hp.
-  assert (HB' : small (0 + xrun_budget (evs ++ [XDetach s]))) by (rewrite xrun_budget_app; cbn; now rewrite !Nat.add_0_r).
-  assert (H0 : hosts_ok (xs_sv empty_xserver)) by (intros n []).
-  destruct (sim_run (evs ++ [XDetach s]) empty_xserver empty_xserver 0 HB' empty_inv empty_inv xrel_empty H0 H0) as [_ [[IF IE] [HF HE]]].
-  - apply xwf_run_app; [exact Hwf|exact I].
-  - apply Forall_app. split; [exact Hnk|constructor; [exact I|constructor]].
-  - rewrite xrun_app in IF, HF. rewrite erase_app in IE, HE. cbn [erase filter ev_of] in IE, HE. rewrite N.eqb_refl in IE, HE. cbn [negb] in IE, HE.
-    rewrite app_nil_r in IE, HE. cbn [xrun fold_left] in IF, HF. fold XF in IF, HF. fold XE in IE, HE.
-    now apply (hosts_agree _ _ _ h IF IE HF HE Hp).
 Qed.
 
 End Never.
